@@ -181,6 +181,18 @@ func (e *env15) ensureUnit(wt string) (string, error) {
 		}
 		id, _, err = e.d.Submit(f, "in\n", e.to)
 		e.register(id)
+	case "remote_sign_polled":
+		// a signed remote unit that really runs on the other daemon and whose status has been mirrored here at least once
+		// (the local state becomes Running only through a poll answer)
+		id, _, err = e.d.Submit(map[string]string{"node": e.m.ID, "worktype": "xtype", "signwork": "true"}, "in\n", e.to)
+		e.register(id)
+		if err == nil {
+			_, err = e.d.WaitUnitState(id, 40*time.Second, "Running")
+		}
+		if err == nil {
+			time.Sleep(1300 * time.Millisecond) // one more poll interval
+			e.res.count("polled_remote_units")
+		}
 	case "unknown":
 		if len(e.ghosts) == 0 {
 			return "", fmt.Errorf("no pre-seeded unit of an unknown type left")
@@ -862,7 +874,7 @@ func stratify15(vecs []vec15, k int, seed int64) []vec15 {
 	}
 	var out []vec15
 	for _, v := range vecs {
-		protected := v.Conn != "unix" && (v.Wt == "verifying" || v.Wt == "remote_sign" || (spellVariants[v.Wt] && v.Base == "verifying"))
+		protected := v.Conn != "unix" && (v.Wt == "verifying" || v.Wt == "remote_sign" || v.Wt == "remote_sign_polled" || (spellVariants[v.Wt] && v.Base == "verifying"))
 		keep := protected && (v.Tok == "valid" || v.Tok == "absent")
 		ci := cells[v.Cmd+"|"+v.Conn+"|"+v.Wt]
 		for j := 0; j < k && !keep; j++ {
@@ -962,8 +974,11 @@ func cmdC15(args []string) {
 		ctl.Item{"work-command": map[string]any{"worktype": "vtype", "command": "sh", "params": long, "verifysignature": true}},
 		ctl.Item{"work-command": map[string]any{"worktype": "ntype", "command": "sh", "params": long}},
 	)
+	// the second daemon is also an executor: it runs the signed work type xtype (unknown on d) for d's signed remote units
 	m := ctl.NewDaemon(*bin, filepath.Join(dir, "m"), "c15m", false, nil,
 		ctl.Item{"tcp-peer": map[string]any{"address": fmt.Sprintf("127.0.0.1:%d", port)}},
+		ctl.Item{"work-verification": map[string]any{"publickey": filepath.Join(dir, "k3.pub")}},
+		ctl.Item{"work-command": map[string]any{"worktype": "xtype", "command": "sh", "params": long, "verifysignature": true}},
 	)
 	e := &env15{d: d, m: m, res: res, k1: k1, k2: k2, cur: map[string]string{}, to: 20 * time.Second, allUnits: map[string]bool{}, distinct: map[string]bool{}}
 	nGhost := 130 * *inst
